@@ -271,10 +271,9 @@ def gen_history(rng, maxops):
                     ops.append(dict(op=o, text=None, rs=[pick(nr) for _ in range(k)]))
                 nh += 1
         elif o == 'sethd':
-            vn = rng.choice(['1.5', '1.6', '1.5', ''])
+            # an @HD field is only set together with a version (the format has nowhere else to store it)
+            vn = rng.choice(['1.5', '1.6', '1.5'])
             so, go = rng.randrange(4), rng.randrange(4)
-            if vn == '' and rng.random() < 0.9:
-                so, go = 0, 0
             ops.append(dict(op=o, h=pick(nh), vn=vn, so=so, go=go))
         elif o == 'addco':
             ops.append(dict(op=o, h=pick(nh), text=rng.choice(['hello', '', 'a b', 'tab\there', 'x\ty\tz', '@CO', 'ends in space '])))
